@@ -75,7 +75,10 @@ func mentionsBound(t string) bool {
 }
 
 // usesCollisionResistance reports whether a lemma set relies on H being injective.
-func bytesLemmas(goal string, asserts []string) (lemmas []string, usedInj bool) {
+// The length facts come back in lemmas; the pairwise ones (injectivity, cancellation:
+// quadratically many) in pairwise: they are only added to a query that did not go through
+// without them.
+func bytesLemmas(goal string, asserts []string) (lemmas, pairwise []string, usedInj bool) {
 	all := goal
 	hasAny := strings.Contains(goal, "(H ") || strings.Contains(goal, "(cat ")
 	for _, a := range asserts {
@@ -84,7 +87,7 @@ func bytesLemmas(goal string, asserts []string) (lemmas []string, usedInj bool) 
 		}
 	}
 	if !hasAny {
-		return nil, false
+		return nil, nil, false
 	}
 	var sb strings.Builder
 	sb.WriteString(goal)
@@ -133,7 +136,7 @@ func bytesLemmas(goal string, asserts []string) (lemmas []string, usedInj bool) 
 	for i := 0; i < len(hs); i++ {
 		for j := i + 1; j < len(hs); j++ {
 			x, y := terms[hs[i]][1], terms[hs[j]][1]
-			lemmas = append(lemmas, imp(eq(hs[i], hs[j]), eq(x, y)))
+			pairwise = append(pairwise, imp(eq(hs[i], hs[j]), eq(x, y)))
 			usedInj = true
 		}
 	}
@@ -141,15 +144,54 @@ func bytesLemmas(goal string, asserts []string) (lemmas []string, usedInj bool) 
 		for j := i + 1; j < len(cats); j++ {
 			a, b := terms[cats[i]][1], terms[cats[i]][2]
 			c, d := terms[cats[j]][1], terms[cats[j]][2]
-			lemmas = append(lemmas, imp(and(eq(cats[i], cats[j]), eq(app("blen", a), app("blen", c))), and(eq(a, c), eq(b, d))))
+			pairwise = append(pairwise, imp(and(eq(cats[i], cats[j]), eq(app("blen", a), app("blen", c))), and(eq(a, c), eq(b, d))))
 		}
 	}
 	for _, grp := range [][]string{b64, b16} {
 		for i := 0; i < len(grp); i++ {
 			for j := i + 1; j < len(grp); j++ {
-				lemmas = append(lemmas, imp(eq(grp[i], grp[j]), eq(terms[grp[i]][1], terms[grp[j]][1])))
+				pairwise = append(pairwise, imp(eq(grp[i], grp[j]), eq(terms[grp[i]][1], terms[grp[j]][1])))
 			}
 		}
 	}
-	return lemmas, usedInj
+	return lemmas, pairwise, usedInj
+}
+
+// recursesOnBound: fact is an unfolding instance "(= (f a1..an) BODY)" (possibly already
+// wrapped in foralls). It reports whether BODY applies f again with an argument that differs
+// from the head's and involves the bound variable v (recursion ON the bound variable).
+func recursesOnBound(fact, v string) bool {
+	f := fact
+	for strings.HasPrefix(f, "(forall ((") {
+		_, _, body, ok := parseForall(f)
+		if !ok {
+			return false
+		}
+		f = body
+	}
+	if !strings.HasPrefix(f, "(= (") {
+		return false
+	}
+	parts := splitTop(f[3 : len(f)-1])
+	if len(parts) != 2 || !strings.HasPrefix(parts[0], "(") {
+		return false
+	}
+	head := splitTop(parts[0][1 : len(parts[0])-1])
+	if len(head) < 2 {
+		return false
+	}
+	name := head[0]
+	apps := map[string][]string{}
+	collectApps(parts[1], map[string]bool{name: true}, apps)
+	for _, a := range apps {
+		if len(a) != len(head) {
+			continue
+		}
+		for i := 1; i < len(a); i++ {
+			if a[i] != head[i] && (strings.Contains(a[i], v) || strings.Contains(head[i], v)) {
+				return true
+			}
+		}
+	}
+	return false
 }
